@@ -8,11 +8,15 @@
   VAL    := "n" | "i"<decimal> | "b0" | "b1" | "t"<hex of the bytes> | "t-" (empty text)
 
   STMT (space separated words, prefix notation, every operator has a fixed arity):
-    sel (all|distinct) F W g<k> E×k a<k> AGG×k P o<k> ORD×k lim(<n>|-) off(<n>|-)
+    sel (all|distinct) F W g<k> E×k a<k> AGG×k [hv E] P o<k> ORD×k lim(<n>|-) off(<n>|-)
         F   := t<k> | j (inner|left|right|full|cross) F F (- | on E)
         W   := - | w E
-        AGG := cnt* | cnt E | sum E | avg E | min E | max E
-        P   := star | p<k> E×k                  (ignored when a<k> has k > 0: output = group keys ++ aggregates)
+        AGG := cnt* | cnt E | sum E | avg E | min E | max E | cntd E | sumd E | avgd E | mind E | maxd E   (…d = DISTINCT)
+        hv E: HAVING (optional word)
+        P   := star | p<k> E×k
+               In an aggregate query (g<k> or a<k> with k > 0) the columns c<i> of P and of HAVING are those of the
+               *aggregate row*: the k group keys, then the aggregates, in this order; `star` = the whole aggregate row.
+               The SQL text shows the key expression / the aggregate call in their place.
         ORD := a<pos> | d<pos>                  ascending / descending on output column <pos>
     ins t<k> r<n> E×(n·columns)
     upd t<k> s<m> (c<col> E)×m W
@@ -143,7 +147,8 @@ def reparseFrom (T : Parser.Table) : From → From
 def reparseStmt (T : Parser.Table) : Stmt → Stmt
   | .select q => .select { q with
       from_ := reparseFrom T q.from_, where_ := q.where_.map (reparse T), groupBy := q.groupBy.map (reparse T),
-      aggs := q.aggs.map (fun a => { a with arg := reparse T a.arg }), items := q.items.map (·.map (reparse T)) }
+      aggs := q.aggs.map (fun a => { a with arg := reparse T a.arg }), items := q.items.map (·.map (reparse T)),
+      having := q.having.map (reparse T) }
   | .insert t rows => .insert t (rows.map (·.map (reparse T)))
   | .update t sets w => .update t (sets.map (fun s => (s.1, reparse T s.2))) (w.map (reparse T))
   | .delete t w => .delete t (w.map (reparse T))
@@ -294,6 +299,11 @@ def pAgg (fuel : Nat) : P Agg
   | "avg" :: ws => (pExpr fuel ws).map fun (e, r) => ({ fn := .avg, arg := e }, r)
   | "min" :: ws => (pExpr fuel ws).map fun (e, r) => ({ fn := .min, arg := e }, r)
   | "max" :: ws => (pExpr fuel ws).map fun (e, r) => ({ fn := .max, arg := e }, r)
+  | "cntd" :: ws => (pExpr fuel ws).map fun (e, r) => ({ fn := .count, arg := e, distinct := true }, r)
+  | "sumd" :: ws => (pExpr fuel ws).map fun (e, r) => ({ fn := .sum, arg := e, distinct := true }, r)
+  | "avgd" :: ws => (pExpr fuel ws).map fun (e, r) => ({ fn := .avg, arg := e, distinct := true }, r)
+  | "mind" :: ws => (pExpr fuel ws).map fun (e, r) => ({ fn := .min, arg := e, distinct := true }, r)
+  | "maxd" :: ws => (pExpr fuel ws).map fun (e, r) => ({ fn := .max, arg := e, distinct := true }, r)
   | _ => none
 
 def pMany {α} (p : P α) : Nat → P (List α)
@@ -312,6 +322,10 @@ def pOptNat (pre : String) : P (Option Nat)
   | w :: ws =>
     if w == pre ++ "-" then some (none, ws) else (numAfter pre w).map fun n => (some n, ws)
   | [] => none
+
+def pHaving (fuel : Nat) : P (Option Expr)
+  | "hv" :: ws => (pExpr fuel ws).map fun (e, r) => (some e, r)
+  | ws => some (none, ws)
 
 def pItems (fuel : Nat) : P (Option (List Expr))
   | "star" :: r => some (none, r)
@@ -334,6 +348,7 @@ def pSelect (fuel : Nat) : P Select
       | a :: r =>
         (numAfter "a" a).bind fun na =>
         (pMany (pAgg fuel) na r).bind fun (aggs, r) =>
+        (pHaving fuel r).bind fun (hv, r) =>
         (pItems fuel r).bind fun (items, r) =>
         match r with
         | o :: r =>
@@ -341,7 +356,7 @@ def pSelect (fuel : Nat) : P Select
           (pMany pOrd no r).bind fun (ord, r) =>
           (pOptNat "lim" r).bind fun (lim, r) =>
           (pOptNat "off" r).map fun (off, r) =>
-            ({ distinct := distinct, from_ := f, where_ := w, groupBy := keys, aggs := aggs, items := items,
+            ({ distinct := distinct, from_ := f, where_ := w, groupBy := keys, aggs := aggs, items := items, having := hv,
                orderBy := ord, limit := lim, offset := off }, r)
         | [] => none
       | [] => none
